@@ -178,6 +178,7 @@ def _state(ctx):
         kernel.snapshot(ctx.root),
         realize.history_struct(ctx.project, nested_time=False),
         realize.history_ids(ctx.project),
+        kernel.file_modes(ctx.root),
     )
 
 
@@ -271,6 +272,15 @@ class AtomicEngine(Engine):
                 "mode": rng.choice(["do", "do", "undo", "redo"]), "faults": "all", "swarm": swarm,
             }
         init = gen.gen_tree(rng, swarm)
+        if rng.random() < 0.2:
+            # unusual but legal entries: an executable script, and a file that happens to be named
+            # like a temporary copy of its neighbour
+            fl = [e for e in init if not e.get("dir")]
+            if fl:
+                rng.choice(fl)["mode"] = 0o755
+                e = rng.choice(fl)
+                if not any(x["p"] == e["p"] + ".tmp" for x in init):
+                    init.append({"p": e["p"] + ".tmp", "text": "scratch notes\n", "nl": "lf", "enc": "utf-8", "cls": None, "cookie": None})
         if rng.random() < 0.06:
             # an ignored file is edited together with ordinary ones; while that change waits on the
             # redo list the ignored file alone is edited again; then redo is asked for (refused:
@@ -517,6 +527,14 @@ class AtomicEngine(Engine):
                 "tree_not_restored", info,
                 {"fault": fault, "exc": repr(exc)[:200], "msg": "call raised but the tree differs from before the call",
                  "tree_diff": kernel.diff_trees(s0[0], after[0])},
+                where=fault,
+            )
+        if after[0] == s0[0] and after[3] != s0[3]:
+            bad = True
+            out.violate(
+                "tree_not_restored", dict(info, what="permission bits"),
+                {"fault": fault, "exc": repr(exc)[:200], "msg": "call raised, contents are as before but permission bits are not",
+                 "modes": {k: [oct(s0[3].get(k, 0)), oct(after[3].get(k, 0))] for k in set(s0[3]) | set(after[3]) if s0[3].get(k) != after[3].get(k)}},
                 where=fault,
             )
         if after[2] != s0[2] or after[1] != s0[1]:
